@@ -357,8 +357,14 @@ def make_case(forms, arguments, parity, style, fail):
     }
 
 
+BOTH = ("load", "load_pipeline")
+
+
 def grid_cases(prefix, size, parity, style, all_patterns_fail):
-    """All documents of the main grid whose forms start with ``prefix``"""
+    """All (document, entry points) of the main grid whose forms start with ``prefix``
+
+    Every document goes through load_pipeline(); those of up to four elements, and longer
+    ones with value rotation 0, also through load(path) (five times the cost)."""
     rest = size - len(prefix)
     if rest == 0:
         tails = [()]
@@ -373,10 +379,11 @@ def grid_cases(prefix, size, parity, style, all_patterns_fail):
         for pattern in range(6):
             arguments = [grid_element(form, 2 * pos, pattern)
                          for pos, form in enumerate(forms)]
-            yield make_case(forms, arguments, parity, style, None)
+            entries = BOTH if size <= 4 or pattern == 0 else BOTH[1:]
+            yield make_case(forms, arguments, parity, style, None), entries
             if pattern == 0 or all_patterns_fail:
                 for fail in range(size):
-                    yield make_case(forms, arguments, parity, style, fail)
+                    yield make_case(forms, arguments, parity, style, fail), entries
 
 
 def small_options(tail, max_arity):
@@ -404,7 +411,7 @@ def small_cases(size, first_index, max_arity, parity, style):
         forms = [o[0] for o in options]
         arguments = [(o[1], o[2]) for o in options]
         for fail in [None] + list(range(size)):
-            yield make_case(forms, arguments, parity, style, fail)
+            yield make_case(forms, arguments, parity, style, fail), BOTH
 
 
 def shard(args):
@@ -415,15 +422,17 @@ def shard(args):
     else:
         cases = small_cases(*args[1:])
     try:
-        for case in cases:
-            problem = run_case(case)
+        for case, entries in cases:
+            problem = run_case(case, entries)
             size = len(case["elements"])
             acc.case(
                 nontrivial_key=repr(case) if size >= 2 else None,
-                sample=case if size >= 3 and acc.evaluations % 501 == 0 else None,
-                n=2,  # two entry points per document
+                sample=case if size >= 3 and acc.counters.get("documents", 0) % 251 == 0 else None,
+                n=len(entries),  # one evaluation per entry point
             )
             acc.count("documents")
+            for entry in entries:
+                acc.count("loaded-via-" + entry)
             acc.count("documents-with-failing-constructor" if case["fail"] is not None
                       else "documents-loading")
             acc.outcome((size, case["fail"] is None, problem is None))
@@ -439,7 +448,7 @@ def shard(args):
 
 def run(ctx):
     max_size = 4 if ctx.quick else 5
-    small_arity = 1 if ctx.quick else 2
+    small_arity = {1: 2, 2: 1}  # number of elements -> largest arity, full value product
     shards = []
     # quick: lazy-first + block, eager-first + flow; thorough: the full 2 x 2 product
     variants = [(0, "block"), (1, "flow")] if ctx.quick else [
@@ -451,9 +460,9 @@ def run(ctx):
             for prefix in itertools.product(HEAD_FORMS, repeat=depth):
                 shards.append(("grid", prefix, size, parity, style, not ctx.quick))
         for size in (1, 2):
-            count = len(small_options(size == 1, small_arity))
+            count = len(small_options(size == 1, small_arity[size]))
             for index in range(count):
-                shards.append(("small", size, index, small_arity, parity, style))
+                shards.append(("small", size, index, small_arity[size], parity, style))
     ctx.pmap(shard, shards, chunksize=1)
     ctx.meta.update(
         rule="YAML documents with a pipeline of n elements: every assignment of the forms "
@@ -461,16 +470,18 @@ def run(ctx):
              "rotations of the argument values %r (two arguments per element) x "
              "lazy/eager classes alternating over positions (2 parities) x %r notation "
              "(quick: parity 0 with block, parity 1 with flow; thorough: 2 x 2) x "
-             "failing position in {none, 0..n-1} (%s); plus for n <= 2 every arity 0..%d "
-             "with the full product of values; every document through load(path) and "
-             "through load_pipeline(yaml.load(text, COBalDLoader)); non-trivial = at "
-             "least two elements (something is linked); distinct by the full case"
+             "failing position in {none, 0..n-1} (%s); plus the full product of argument "
+             "values for n = 1 with every arity 0..2 and n = 2 with every arity 0..1; "
+             "every document through load_pipeline(yaml.load(text, COBalDLoader)), those "
+             "with n <= 4 (and n = 5 with value rotation 0) also through load(path); "
+             "non-trivial = at least two elements (something is linked); distinct by the "
+             "full case"
              % (HEAD_FORMS, VALUE_KINDS, STYLES,
                 "failing positions with value rotation 0 only" if ctx.quick
-                else "with every value rotation", small_arity),
+                else "with every value rotation"),
         exhaustive=True,
         bounds={"max_elements": max_size, "arguments_per_element": 2,
-                "small_grid_max_elements": 2, "small_grid_max_arity": small_arity,
+                "full_value_product_max_arity_by_elements": small_arity,
                 "value_kinds": VALUE_KINDS, "entry_points": ["load", "load_pipeline"]},
     )
     ctx.assumptions += [
